@@ -92,8 +92,10 @@ func TestExclFree(t *testing.T) {
 		// many keys at once (one case in eight): while a slow work function runs on key 0, 64-120 other keys are
 		// all present at the same time and then drain; afterwards key 0 is called again while the slow one still runs
 		burstN := 0
+		burstAge := time.Duration(0)
 		if rapid.IntRange(0, 7).Draw(t, "keyBurst") == 0 {
 			burstN = rapid.IntRange(64, 120).Draw(t, "burstKeys")
+			burstAge = rapid.SampledFrom([]time.Duration{0, 0, 2 * time.Minute, 3 * time.Hour}).Draw(t, "slowAge")
 			slow := &efCall{g: nG, key: 0, style: rapid.SampledFrom([]string{"Call", "CallAsync", "Start", "Options"}).Draw(t, "slowStyle"), waitBurst: true,
 				postY: rapid.SampledFrom([]int{0, 3}).Draw(t, "slowPostY"), workY: rapid.SampledFrom([]int{20, 60, 200}).Draw(t, "slowTail")}
 			follow := &efCall{g: nG + 1, key: 0, style: rapid.SampledFrom([]string{"Call", "CallAsync", "Start", "Options"}).Draw(t, "followStyle"), afterBurst: true}
@@ -115,7 +117,7 @@ func TestExclFree(t *testing.T) {
 			bigbuff.VerifExclAfterWork:   rapid.SampledFrom([]int{0, 0, 1, 3, 10}).Draw(t, "hookAfter"),
 		}
 		var trace []string
-		trace = append(trace, fmt.Sprintf("keys=%d hooks=%v burstKeys=%d", nKeys, hookY, burstN))
+		trace = append(trace, fmt.Sprintf("keys=%d hooks=%v burstKeys=%d slowAge=%v", nKeys, hookY, burstN, burstAge))
 		for g, cs := range calls {
 			var d []string
 			for _, c := range cs {
@@ -269,6 +271,9 @@ func TestExclFree(t *testing.T) {
 						}
 					}()
 					<-slowRunning
+					if burstAge > 0 {
+						time.Sleep(burstAge) // the slow work function has been running for a long (virtual) time by now
+					}
 					started := make(chan struct{}, burstN)
 					release := make(chan struct{})
 					var bw sync.WaitGroup
